@@ -6,5 +6,7 @@ if ! git -C /repo diff --quiet; then echo "repo has uncommitted changes"; exit 2
 git -C /repo apply "$patch" || { echo "patch does not apply"; exit 2; }
 trap 'git -C /repo checkout -- . ; find /repo -name "__pycache__" -prune -exec rm -rf {} + 2>/dev/null' EXIT
 for c in "$@"; do
-  VERIF_TIER=${VERIF_TIER:-quick} ./check "$c" 2>&1 | grep -E "^VIOLATION|^KNOWN|^C[0-9]+:" | head -5
+  out=$(VERIF_TIER=${VERIF_TIER:-quick} ./check "$c" 2>&1 | grep -E "^VIOLATION|^KNOWN|^C[0-9]+:")
+  echo "$out" | grep -E "^VIOLATION|^KNOWN" | head -3
+  echo "$out" | grep -E "^C[0-9]+:" | tail -1
 done
